@@ -85,3 +85,6 @@ package common
 // assumed: rendering an error as text has no effect on caller-visible state
 //@ extern error.Error
 //@ ensures true
+
+// The authorization block of every engine's routes template is unconditional (see /verif/gvc/tmplgate.go).
+//@ check template-gate props C03
